@@ -10,8 +10,12 @@ WAVETYPES = ['const', 'cos', 'sin', 'rect', 'tri', 'saw']
 CHECKED = ['R', 'G', 'C', 'L', 'w', 'P', 'V_ref']
 
 
+CTORS = {}
+
+
 def make(fname, tag, params, value):
     checked = [p for p in params if p in CHECKED]
+    CTORS[fname] = (tag, params, value)
 
     @contract('CircuitCalculator.Circuit.components.' + fname, props=['C07', 'C19'], name='ctor_' + fname)
     class _c:
